@@ -6,7 +6,7 @@ CLAIMED = {
  "C01": ("4.8", "seeded search over the same shared-encoder histories as C14 (one encoder object, 1-2 destination packings, scribbled scratch and destination state between decodings, instance sizes and item counts at the int8/int16/int32 storage boundaries, 1x1 bins, items as large as the bin, forced rotations, shipped instances); every decoded packing is judged by an independent feasibility predicate and the storage type by the documented requirement. The universal quantifier over inputs is sampled; what the simulation contributes is the history and hostile leftover state. A clean batch is evidence, not proof.",
          "trusted: feasibility predicate in simkit/oracles/packing.py, numba, numpy, moptipy",
          "deterministic simulation with fault injection (shared-object operation histories + state scribbling vs. independent feasibility oracle)"),
- "C02": ("4.9", "seeded search over evaluation histories: one object per objective class is shared by a history of evaluations of several feasible packings (decoder-reachable and not: relocated/rotated items, sparse last bins, unsorted rows) held in reused buffers, with the objectives' scratch arrays scribbled between calls; every value is compared with an independent implementation of the documented definition, the declared bounds, the bin-count conversion, earlier values of the same pair and the dominance clause across packings. The universal quantifier over packings is sampled. A clean batch is evidence, not proof.",
+ "C02": ("4.9", "seeded search over evaluation histories: one object per objective class is shared by a history of evaluations of several feasible packings (decoder-reachable and not: relocated/rotated items, sparse last bins, unsorted rows; bins from 1x1 over sides around 46341/65536 with items nearly as large - areas around 2**31 and 2**32 - up to areas of 1e17) held in reused buffers, with the objectives' scratch arrays scribbled between calls; every value is compared with an independent implementation of the documented definition, the declared bounds, the bin-count conversion, earlier values of the same pair and the dominance clause across packings. The universal quantifier over packings is sampled. A clean batch is evidence, not proof.",
          "trusted: the documented definitions re-implemented in simkit/oracles/packing.py (cross-checked on the unchanged tree), numba, numpy",
          "deterministic simulation with fault injection (shared-object evaluation histories, buffer reuse, scratch-state faults vs. reference definitions)"),
  "C04": ("4.6", "seeded search over histories of store/damage/recover cycles that share one instance and one PackingSpace object: complete log files (real FileLogger/LogParser), to_str text and live arrays are damaged by 0-4 faults (digit flips, dropped/duplicated fields and rows, torn writes, single-field edits, one-dimension-matching sizes, relabelled ids, bin gaps, wrong n_bins/dtype/shape) and validate/from_str/from_log must accept exactly what an independent feasibility predicate accepts (also right after a rejected predecessor), must not turn a well-formed integer list of the wrong length into a packing, and must return the stored packing when undamaged or benignly edited. A clean batch is evidence, not proof.",
